@@ -103,7 +103,16 @@ def op_sec(name, val, ns=NS):
     """val: 'absent' deletes; otherwise crt:<id> | bad | auth:u:p | ca:<id>"""
     if val == "absent":
         return op_del("sec", "%s/%s" % (ns, name))
-    return dict(kind="sec", name="%s/%s" % (ns, name), sec=val, tmpl=val)
+    sec = val
+    if val == "bad":
+        # the ways a kubernetes.io/tls secret is unusable: not PEM at all, a key of another certificate, no key
+        global _bad
+        _bad += 1
+        sec = ("bad", "bad:mismatch", "bad:nokey")[_bad % 3]
+    return dict(kind="sec", name="%s/%s" % (ns, name), sec=sec, tmpl=val)
+
+
+_bad = 0
 
 
 def op_cm(data, name="ingress/cfg"):
@@ -214,7 +223,10 @@ def random_history(rng, hid, steps=6, ext=False, shards=None, batch=3, slots=3, 
                 c = rng.choice(["c1", "c2"])
                 ops.append(op_sec(c, rng.choice(["absent", "crt:" + c, "crt:" + c + "v2", "bad" if core_extra else "crt:" + c])))
             elif ext and r < 0.96:
-                ops.append(op_cm(rng.choice([{}, {"ssl-redirect": "false"}, {"drain-support": "true"}, {"timeout-client": "30s"}])))
+                ops.append(op_cm(rng.choice([{}, {"ssl-redirect": "false"}, {"drain-support": "true"}, {"timeout-client": "30s"},
+                                             # global keys that are rendered inside the backend sections (shard files)
+                                             {"ssl-redirect-code": "301"}, {"ssl-headers-prefix": "X-TLS"}, {"cookie-key": "Other"},
+                                             {"config-proxy": "d_s1_8080\n  http-request deny if { path /zz }"}])))
             elif ext:
                 ops.append(rng.choice([op_sec("basic", rng.choice(["auth:usr:pwd", "auth:usr:other", "absent"])),
                                        op_sec("ca", rng.choice(["ca:ca1", "ca:ca2", "absent"])),
